@@ -80,10 +80,10 @@ def mk_int(e):
         return int(e)
     if isinstance(e, int):
         return e
-    e = z3.simplify(e)
-    if z3.is_int_value(e):
-        return e.as_long()
-    return SInt(e)
+    e2 = z3.simplify(e)
+    if z3.is_int_value(e2):
+        return e2.as_long()
+    return SInt(e)      # keep the original term: bit-slice forms are registered by term identity
 
 
 def mk_bool(e):
